@@ -611,17 +611,24 @@ def g9(ctx):
         news = [c for c in b.all_calls() if c.callee and c.callee.is_("new", "group::Group") and not c.body.blocks[c.bb]["cleanup"]]
         if not news:
             continue
-        # the permutations built in this function (and its closures): ProvenPerm { elem, .. }
-        for sub in b.all_bodies():
+        # the permutations built in this function (and its closures): ProvenPerm { elem, .. } — also when the construction sits
+        # in a single-use helper the function was split into, or in a tiny constructor helper (mk_proven_perm(elem, proof))
+        bv = mir.inline_view(crate, b, keep=("new",))
+        subs = [bv] + [mir.accessor_view(crate, mir.inline_view(crate, x, keep=("new",))) for x in bv.all_bodies() if x is not bv]
+        for sub in subs:
             for bi, si, st in sub.statements():
                 rv = st["rv"] if st["k"] == "assign" else None
                 if not (rv and rv["k"] == "agg" and rv.get("agg") == "adt" and str(rv.get("adt", "")).endswith("ProvenPerm")):
                     continue
                 if sub.blocks[bi]["cleanup"]:
                     continue
-                n += 1
                 fields = rv.get("fields", [])
                 el = sub.role_of_operand(rv["ops"][fields.index("elem")]) if "elem" in fields else None
+                # only permutations made out of an existing one (an old generator carried over); the identity of the new group
+                # is built from the kept slot set itself
+                if el is None or not role_mentions_field(el, "elem"):
+                    continue
+                n += 1
                 ok = False
                 if el is not None:
                     for x in role_walk(el):
